@@ -209,9 +209,7 @@ HexT2 == {
 HexT3 == {
   <<>>,   \* ''
   <<48>>,   \* '0'
-  <<49>>,   \* '1'
-  <<102, 102, 102, 102>>,   \* 'ffff'
-  <<49, 48, 48, 48, 48>>    \* '10000'
+  <<102, 102, 102, 102>>    \* 'ffff'
 }
 
 CandQ == {
@@ -329,9 +327,9 @@ MCView == <<roots, names, recs>>
 \* Spec |= Props, where the listed deviations of the code are allowed to show (each has a tag)
 ModTags(ok, e) == ok \/ Tags(e) # {}
 P_C18 == [][/\ ModTags(C18_OnlyValid(ev'), ev') /\ ModTags(C18_AllValid(ev'), ev')
-            /\ C18_RejectInert(ev') /\ C18_Stored(ev')]_mcvars
+            /\ C18_RejectInert(ev') /\ Stored(ev')]_mcvars
 \* the statement itself (holds with Dev = {}, i.e. after the repairs)
-P_C18_Strict == [][C18_OnlyValid(ev') /\ C18_AllValid(ev') /\ C18_RejectInert(ev') /\ C18_Stored(ev')]_mcvars
+P_C18_Strict == [][C18_OnlyValid(ev') /\ C18_AllValid(ev') /\ C18_RejectInert(ev') /\ Stored(ev')]_mcvars
 
 TypeOK == roots \subseteq names /\ \A r \in recs : r.name \in names
 
